@@ -673,3 +673,15 @@ func (s *rawSession) kill() {
 }
 
 var errHarness = errors.New("harness")
+
+// corpusFiles lists corpus/<pid>/*.json next to the build directory (committed boundary and
+// historic cases, replayed before the generated ones).
+func corpusFiles(pid string) []string {
+	dir := filepath.Join(filepath.Dir(filepath.Dir(os.Args[0])), "corpus", pid)
+	if _, err := os.Stat(dir); err != nil {
+		dir = filepath.Join("/verif/corpus", pid)
+	}
+	fs, _ := filepath.Glob(filepath.Join(dir, "*.json"))
+	sort.Strings(fs)
+	return fs
+}
